@@ -186,8 +186,20 @@ def run(tier):
             num = {"amp": "&#38;", "lt": "&#60;", "gt": "&#62;", "quot": "&#34;", "apos": "&#39;"}[n]
         else:
             v = re.sub(r"&#x([0-9A-Fa-f]+);", lambda m: chr(int(m.group(1), 16)), v)        # amp, lt and relatives map to a reference
+            # the character(s) the name stands for are taken from an independent table (Python's html.entities.html5, the WHATWG list)
+            # where it knows the name - the library's own table cannot vouch for itself; the 2007 W3C set the library follows puts
+            # a space in front of four combining marks, which is kept
+            import html.entities
+            w = html.entities.html5.get(n + ";")
+            if w is not None and v != " " + w:
+                v = w
             num = "".join(f"&#x{ord(c):X};" for c in v)
         ent.append(("with-digit" if re.search(r"\d", n) else "plain", n, f"<math><{host}>a&{n};b</{host}></math>", f"<math><{host}>a{num}b</{host}></math>"))
+    # text that looks like an entity inside a comment or a processing instruction between elements: insignificant, whatever it says
+    body = "<mi>x</mi><mo>+</mo><mn>1</mn>"
+    for junk in ("&nosuch;", "&alpha; &amp; &lt;", "a & b", "&#x41; &frac12;"):
+        ent.append(("insignificant-text", "comment", f"<math><!-- {junk} -->{body}</math>", f"<math>{body}</math>"))
+        ent.append(("insignificant-text", "pi", f"<math><mi>x</mi><?tex {junk} ?><mo>+</mo><mn>1</mn></math>", f"<math>{body}</math>"))
     for i in range(60):
         n = "".join(rng.choice("abcdefghijklmnopqrstuvwxyzABCDEFGH0123456789") for _ in range(rng.randint(3, 9)))
         n = "q" + n
